@@ -216,7 +216,24 @@ func (m *mon) hiddenOK(in, out *Node) bool {
 	}
 	switch in.Kind {
 	case kNum:
-		return out.S == m.hash(numText(in.S)) || out.S == m.hash(in.S)
+		// the property does not fix the rendering of a number that is hashed:
+		// accept the digest of the token and of the usual decimal renderings
+		if out.S == m.hash(in.S) {
+			return true
+		}
+		f, err := strconv.ParseFloat(in.S, 64)
+		if err != nil {
+			return false
+		}
+		if out.S == m.hash(strconv.FormatFloat(f, 'g', -1, 64)) {
+			return true
+		}
+		for prec := -1; prec <= 6; prec++ {
+			if out.S == m.hash(strconv.FormatFloat(f, 'f', prec, 64)) {
+				return true
+			}
+		}
+		return false
 	default:
 		return out.S == m.hash(leafText(in))
 	}
